@@ -1620,6 +1620,11 @@ def _agree_call(c, o, m):
         return why
     if c["kind"] == "oor" and "error" in o and "error" in m:
         return None  # positions outside the frame: which of IndexError / length mismatch comes first is not modelled
+    if c["kind"] == "oor" and o.get("error") == "IndexError" and "error" not in m:
+        # positions outside the frame are outside the property; since repair c414a4c a list-valued numerical factor is
+        # made an array BEFORE rows are dropped, so the array overload (IndexError) meets the position the list overload
+        # used to ignore — the model keeps the list overload's answer
+        return None
     if m.get("error") == "NotColumns":
         # the model does not follow a value that cannot become columns beyond the null check: only that is compared
         oe = o.get("error")
